@@ -283,8 +283,8 @@ impl Property for C02 {
     }
     fn cases(&self, tier: Tier) -> usize {
         match tier {
-            Tier::Quick => 20000,
-            Tier::Thorough => 400000,
+            Tier::Quick => 100000,
+            Tier::Thorough => 600000,
         }
     }
     crate::typed_property!(C02, SpeedCase);
@@ -315,8 +315,8 @@ impl Property for C13 {
     }
     fn cases(&self, tier: Tier) -> usize {
         match tier {
-            Tier::Quick => 20000,
-            Tier::Thorough => 400000,
+            Tier::Quick => 100000,
+            Tier::Thorough => 600000,
         }
     }
     crate::typed_property!(C13, SpeedCase);
